@@ -177,6 +177,29 @@ for i1, (rr1, cc1) in enumerate([(r, c_) for r in ROWS for c_ in COLS]):
                           ' and '.join('D[0][2][%d][%d] == %s[%d]' % (r * W + k, i, src, i) for i in range(4)))
 
 
+# ---- a block on a script that never executed `set default`: the cells no stage covers are sent as black [0, 0, 0, 0]
+#      (a cell must never reach the light as None)
+c = contract('bardolph/vm/machine.py', 'two_stages', serves=['C15', 'C01', 'C20', 'C18'], src=SRC2, name='lemma:set L begin stage 0/0 stage 1/1..2 end [no default was ever set]')
+def _setup(b, case):
+    impl = lib.device(b, 'dev')
+    light = lib.lifx_light(b, 'matrix', impl, 'L', _height=H, _width=W)
+    m = lib.machine(b, 'RAW', lib.light_set_with(b, {'L': light}))
+    reg = m.attrs['_reg']
+    reg.attrs['name'] = 'L'
+    reg.attrs['duration'] = 0
+    col1 = tuple(b.sym('int', 'a%d' % i) for i in range(4))
+    col2 = tuple(b.sym('int', 'b%d' % i) for i in range(4))
+    for x in list(col1) + list(col2):
+        b.between(x, 0, 65535)
+    assert reg.attrs['default'] is None
+    return {'self': m, 'r1': (0, 0, 0, 0), 'r2': (1, 1, 1, 2), 'col1': col1, 'col2': col2, '_impl': impl}
+c.setup(_setup)
+c.bounded('2 x 3 matrix')
+c.define('D', "ghost('Dev')")
+c.ensures('whole-matrix-exactly-once', "len(D) == 1 and D[0][1] == 'set_matrix' and len(D[0][2]) == %d" % (H * W))
+c.ensures('uncovered-cells-are-black-never-none', ' and '.join('D[0][2][%d] == [0, 0, 0, 0]' % i for i in (1, 2, 3)))
+c.ensures('covered-cells-carry-their-stage', ' and '.join(['D[0][2][0][%d] == col1[%d]' % (i, i) for i in range(4)] + ['D[0][2][4][%d] == col2[%d]' % (i, i) for i in range(4)]))
+
 # ---- `set L begin`: the staging area is blank and has the shape of the NAMED light, whatever was staged before
 #      (a replayed snapshot restores matrix lights of different shapes one after the other: C18)
 for prev in (None, (2, 3), (1, 3), (3, 3), (2, 2)):
